@@ -571,7 +571,7 @@ func ruleHashDefs(c *Check, p *Prog) {
 		var leaf *Term
 		for _, b := range fn.Blocks {
 			for _, in := range b.Instrs {
-				if call, isC := in.(*ssa.Call); isC && strings.HasSuffix(commonName(call.Common()), "types.leafHashOpt") {
+				if call, isC := in.(*ssa.Call); isC && (call.Common().StaticCallee() != nil && len(call.Common().StaticCallee().Params) == 2 && strings.HasSuffix(call.Common().StaticCallee().Params[0].Type().String(), "hash.Hash")) {
 					t := TermOf(call, ctx)
 					if t.Args[0].IsCall("crypto/sha256.New") {
 						leaf = t.Args[1]
@@ -611,8 +611,15 @@ func ruleHashDefs(c *Check, p *Prog) {
 		}
 	}
 	// leafHashOpt: Reset; Write(leafPrefix); Write(leaf); Sum(nil) in that order, leafPrefix = {0}
-	lh := p.MustFunc(typesF("leafHashOpt"))
-	{
+	var lh *ssa.Function
+	for _, cal := range staticCalleesOf(p, p.MustFunc(typesM("Data", "Hash"))) {
+		if len(cal.Params) == 2 && strings.HasSuffix(cal.Params[0].Type().String(), "hash.Hash") {
+			lh = cal
+		}
+	}
+	if lh == nil {
+		c.Unk(rule, "leaf-hash-helper", "", "", "anchor lost: the leaf hash helper called by Data.Hash")
+	} else {
 		g := BuildECFG(p, lh, ExpandOpts{MaxDepth: 0})
 		var seq []string
 		for _, n := range g.Nodes {
@@ -625,13 +632,25 @@ func ruleHashDefs(c *Check, p *Prog) {
 			}
 		}
 		want := "Reset,Write(types.leafPrefix),Write(" + lh.Params[1].Name() + "),Sum"
-		if strings.Join(seq, ",") == want {
+		if strings.Join(seq, ",") == want || (len(seq) == 4 && seq[0] == "Reset" && strings.HasPrefix(seq[1], "Write(types.") && seq[2] == "Write("+lh.Params[1].Name()+")" && seq[3] == "Sum") {
 			c.OK(rule, "leafHashOpt = H(prefix ‖ leaf)", fnName(lh), p.Pos(lh.Pos()), strings.Join(seq, " → "), true)
 		} else {
 			c.Bad(rule, "leafHashOpt = H(prefix ‖ leaf)", fnName(lh), p.Pos(lh.Pos()), "unexpected hashing sequence "+strings.Join(seq, ","), nil)
 		}
 	}
-	// leafPrefix value from the package initialiser
+	// the prefix global (first Write argument of the leaf hash helper) and its value from the package initialiser
+	prefixGlobal := ""
+	if lh != nil {
+		for _, b := range lh.Blocks {
+			for _, in := range b.Instrs {
+				if call, ok := in.(*ssa.Call); ok && call.Common().IsInvoke() && call.Common().Method.Name() == "Write" && prefixGlobal == "" {
+					if t := TermOf(call.Common().Args[0], &Ctx{Fn: lh}); t.Op == "global" {
+						prefixGlobal = t.Name
+					}
+				}
+			}
+		}
+	}
 	pk := p.byPkg[rootPath+"/types"]
 	pref := ""
 	for _, f := range pk.Syntax {
@@ -644,7 +663,7 @@ func ruleHashDefs(c *Check, p *Prog) {
 		for _, b := range initFn.Blocks {
 			for _, in := range b.Instrs {
 				if st, ok := in.(*ssa.Store); ok {
-					if gl, ok := st.Addr.(*ssa.Global); ok && gl.Name() == "leafPrefix" {
+					if gl, ok := st.Addr.(*ssa.Global); ok && prefixGlobal != "" && "types."+gl.Name() == prefixGlobal {
 						if sl, ok := st.Val.(*ssa.Slice); ok {
 							if al, ok := sl.X.(*ssa.Alloc); ok {
 								var bs []string
@@ -727,7 +746,13 @@ func ruleDecoderGuards(c *Check, p *Prog) {
 		c.Unk(rule, "decoder-derefs", "", "", fmt.Sprintf("anchor lost: %d message dereferences found", n))
 	}
 	// cursor list codec
-	enc, dec := p.Func(blockF("convertBatchDataToBytes")), p.Func(blockF("bytesToBatchData"))
+	var enc, dec *ssa.Function
+	for _, f := range funcsCalling(p, rootPath+"/block", func(n string) bool { return strings.HasPrefix(n, "(encoding/binary.") && strings.Contains(n, ").PutUint32") }) {
+		enc = f
+	}
+	for _, f := range funcsCalling(p, rootPath+"/block", func(n string) bool { return strings.HasPrefix(n, "(encoding/binary.") && strings.HasSuffix(n, ").Uint32") }) {
+		dec = f
+	}
 	if enc == nil || dec == nil {
 		c.Unk(rule, "cursor-list-codec", "", "", "anchor lost: cursor list encoder/decoder")
 		return
